@@ -336,7 +336,7 @@ impl Known {
             }
             let ok = |key: &str, hay: &str| e["match"][key].as_array().map(|a| a.iter().all(|s| hay.contains(s.as_str().unwrap_or("\u{0}")))).unwrap_or(true);
             let any_ok = |key: &str, hay: &str| e["match"][key].as_array().map(|a| a.is_empty() || a.iter().any(|s| hay.contains(s.as_str().unwrap_or("\u{0}")))).unwrap_or(true);
-            if ok("ops_contains", &ops) && ok("detail_contains", detail) && ok("universe_contains", &uni) && ok("plan_contains", &plan) && ok("json_contains", &whole) && any_ok("ops_contains_any", &ops) && any_ok("detail_contains_any", detail) {
+            if ok("ops_contains", &ops) && ok("detail_contains", detail) && ok("universe_contains", &uni) && ok("plan_contains", &plan) && ok("json_contains", &whole) && any_ok("ops_contains_any", &ops) && any_ok("detail_contains_any", detail) && any_ok("plan_contains_any", &plan) {
                 return Some(e["what"].as_str().unwrap_or("").to_string());
             }
         }
